@@ -33,7 +33,7 @@
    The model is evaluated at the heap level (slices, Go append) with a doubling growth
    policy; Proofs/Callbacks.v shows the result does not depend on the policy. *)
 From Eino Require Import Base.Util Base.GoSlice Model.Callbacks Model.CallbacksStream Model.CallbacksSched
-  Model.CallbacksResume.
+  Model.CallbacksResume Model.CallbacksPayload.
 
 Definition ev4 (e : event) : N * N * N * N :=
   match e with Ev u x t i => (u, x, timing_code t, i) end.
@@ -80,13 +80,18 @@ Definition mk_world (globals : list handler) (needs : list (handler * list N)) :
 
 Inductive ccase : Type :=
 | CaseScript (globals : list handler) (needs : list (handler * list N)) (ops : list op)
-             (obs : list (N * N * N * N)) (final : list (ukey * list handler))
+             (obs : list (N * N * N * N)) (pobs : list N) (final : list (ukey * list handler))
+    (* pobs: per observed invocation, which On call's payload the handler was handed (the k-th
+       operation of the script is called with payload k, counted from 1; 0 = a stream copy the
+       handler did not read to its end) *)
 | CaseGraph (globals : list handler) (needs : list (handler * list N)) (opts : list copt)
             (is_stream : bool) (g : ukey) (ginf : info) (stages : list (list gnode))
-            (obs : list (N * list (N * N)))
+            (obs : list (N * list (N * N)) * list (N * list N))
+    (* second component: per unit, per invocation, the payload label: 0 the payload the unit
+       consumed, 1 the one it produced, 2 the error it ended with, 8 not determined *)
 | CaseRuns (globals : list handler) (needs : list (handler * list N)) (opts : list copt)
            (is_stream : bool) (g : ukey) (ginf : info) (plan : list (list rnode))
-           (obs : list (list (N * list (N * N))))
+           (obs : list (list (N * list (N * N)) * list (N * list N)))
 | CaseStream (globals locals : list handler) (t : timing) (order : list handler)
              (src : list N) (acts : list cact) (obs : list (list N)) (closed : option bool).
     (* order = the handlers in the order in which they were handed their copy (copy k goes
@@ -111,16 +116,32 @@ Definition final_ok (st : state) (final : list (ukey * list handler)) : bool :=
              | None => false
              end) final.
 
+(* an observed payload / label against the model's: the harness reports 0 resp. 8 when it could
+   not tell (a stream copy not read to the end, a value it cannot derive) *)
+Definition pay_eqb (wild : N) (model obs : N) : bool := N.eqb obs wild || N.eqb model obs.
+
+(* the payload-carrying log grouped by run info: per unit the labels of its invocations *)
+Definition labels_by_info (plog : list (event * payload)) : list (N * list N) :=
+  map (fun i => (i, map (fun x => label_of (ev_unit (fst x)) (snd x))
+                        (filter (fun x => N.eqb (ev_info (fst x)) i) plog)))
+      (dedup_sorted (sort_by N.ltb (map (fun x => ev_info (fst x)) plog))).
+
+Definition lgroup_eqb (a b : N * list N) : bool :=
+  N.eqb (fst a) (fst b) && list_eqb (pay_eqb 8) (snd a) (snd b).
+
 (* one run of a graph against what was observed: the canonical order of the heap-level model and
-   the closed form *)
+   the closed form; the payload every invocation carries *)
 Definition graph_run_ok (w : world) (is_stream : bool) (g : ukey) (ginf : info) (opts : list copt)
-           (stages : list (list gnode)) (obs : list (N * list (N * N))) : bool :=
-  let st := run_script true w (graph_ops is_stream g ginf opts stages) in
-  negb (st_bad st) && list_eqb group_eqb (by_info (st_log st)) obs
-  && list_eqb group_eqb (table_events w is_stream g ginf opts stages) obs.
+           (stages : list (list gnode)) (obs : list (N * list (N * N)) * list (N * list N)) : bool :=
+  let ops := graph_ops is_stream g ginf opts stages in
+  let st := run_script true w ops in
+  negb (st_bad st) && list_eqb group_eqb (by_info (st_log st)) (fst obs)
+  && list_eqb group_eqb (table_events w is_stream g ginf opts stages) (fst obs)
+  && list_eqb lgroup_eqb (labels_by_info (p_log (prun true w (map annot ops)))) (snd obs).
 
 Fixpoint runs_ok (w : world) (is_stream : bool) (g : ukey) (ginf : info)
-         (runs : list (list copt * list (list gnode))) (obs : list (list (N * list (N * N)))) : bool :=
+         (runs : list (list copt * list (list gnode)))
+         (obs : list (list (N * list (N * N)) * list (N * list N))) : bool :=
   match runs, obs with
   | [], [] => true
   | r :: runs', o :: obs' => graph_run_ok w is_stream g ginf (fst r) (snd r) o && runs_ok w is_stream g ginf runs' obs'
@@ -129,13 +150,12 @@ Fixpoint runs_ok (w : world) (is_stream : bool) (g : ukey) (ginf : info)
 
 Definition bad (c : ccase) : bool :=
   match c with
-  | CaseScript globals needs ops obs final =>
+  | CaseScript globals needs ops obs pobs final =>
       let st := run_script true (mk_world globals needs) ops in
-      negb (negb (st_bad st) && list_eqb n4_eqb (map ev4 (st_log st)) obs && final_ok st final)
+      negb (negb (st_bad st) && list_eqb n4_eqb (map ev4 (st_log st)) obs && final_ok st final
+            && list_eqb (pay_eqb 0) (map snd (p_log (prun true (mk_world globals needs) (numbered ops)))) pobs)
   | CaseGraph globals needs opts is_stream g ginf stages obs =>
-      let st := run_script true (mk_world globals needs) (graph_ops is_stream g ginf opts stages) in
-      negb (negb (st_bad st) && list_eqb group_eqb (by_info (st_log st)) obs
-            && list_eqb group_eqb (table_events (mk_world globals needs) is_stream g ginf opts stages) obs)
+      negb (graph_run_ok (mk_world globals needs) is_stream g ginf opts stages obs)
   | CaseRuns globals needs opts is_stream g ginf plan obs =>
       negb (runs_ok (mk_world globals needs) is_stream g ginf
                     (run_seq (S (total_intr plan)) opts plan) obs)
